@@ -53,6 +53,7 @@ type mutant struct {
 	Text    []string `json:"text"`
 	Verdict string   `json:"verdict"`
 	Star    bool     `json:"star"`
+	Toks    []string `json:"toks"` // PyLex's token stream of the mutated text (empty: none / no claim)
 }
 type gcase struct {
 	ID        int64           `json:"id"`
@@ -167,8 +168,8 @@ func render(lines []string, eol string, final bool) string {
 }
 
 func show(s string) string {
-	if len(s) > 600 {
-		return strconv.Quote(s[:600]) + "…"
+	if len(s) > 6000 {
+		return strconv.Quote(s[:6000]) + "…"
 	}
 	return strconv.Quote(s)
 }
@@ -240,13 +241,40 @@ func firstDiffNode(want, got string) string {
 			name = ""
 		}
 	}
+	// The class is the innermost enclosing Node.field that is not an expression node (statement,
+	// arguments, comprehension, keyword, withitem, handler ...): the same defect then has the same
+	// key whatever expression it occurs in.  Only when that field merely holds an arbitrary
+	// expression (value, test, iter ...) is the innermost expression frame added, so that defects
+	// in expressions themselves stay apart.
+	inner := ""
 	for k := len(stack) - 1; k >= 0; k-- {
-		if stack[k].node != "" {
-			return stack[k].node + "." + stack[k].field
+		if stack[k].node == "" {
+			continue
 		}
+		if inner == "" {
+			inner = stack[k].node + "." + stack[k].field
+		}
+		if !exprNodes[stack[k].node] {
+			anchor := stack[k].node + "." + stack[k].field
+			if exprFields[stack[k].field] && inner != anchor {
+				return anchor + "/" + inner
+			}
+			return anchor
+		}
+	}
+	if inner != "" {
+		return inner
 	}
 	return "top"
 }
+
+var exprNodes = map[string]bool{"BoolOp": true, "BinOp": true, "UnaryOp": true, "Lambda": true, "IfExp": true, "Dict": true, "Set": true, "ListComp": true,
+	"SetComp": true, "DictComp": true, "GeneratorExp": true, "Yield": true, "YieldFrom": true, "Compare": true, "Call": true, "Num": true, "Str": true,
+	"Bytes": true, "NameConstant": true, "Ellipsis": true, "Attribute": true, "Subscript": true, "Starred": true, "Name": true, "List": true, "Tuple": true,
+	"Slice": true, "ExtSlice": true, "Index": true}
+
+var exprFields = map[string]bool{"value": true, "test": true, "iter": true, "exc": true, "cause": true, "msg": true, "returns": true, "annotation": true,
+	"context_expr": true, "type": true, "body": true, "ifs": true, "defaults": true, "bases": true}
 
 func checkGrammarCase(c *gcase) {
 	want, types, err := dumpTree(c.Tree)
@@ -357,6 +385,37 @@ func checkGrammarCase(c *gcase) {
 		st.mu.Lock()
 		st.mutants++
 		st.mu.Unlock()
+		what := m.Op
+		if m.Tok != "" {
+			what += " " + tokClass(m.Tok)
+		}
+		if len(m.Toks) > 0 && c.Mode == "exec" {
+			// T on the mutated text: whatever the grammar makes of it, the lexer must see PyLex's tokens
+			text := render(m.Text, "LF", true)
+			kinds, failed, pan := lexKinds(text, c.Mode)
+			evals.Add(1)
+			eq := !failed && pan == "" && len(kinds) == len(m.Toks)
+			for i := 0; eq && i < len(kinds); i++ {
+				eq = kinds[i] == m.Toks[i]
+			}
+			st.mu.Lock()
+			st.lexRuns++
+			if eq {
+				st.lexEqual++
+			}
+			st.mu.Unlock()
+			if !eq {
+				d := "tokens differ"
+				if failed {
+					d = "lexer rejects"
+				}
+				if pan != "" {
+					d = "lexer panics"
+				}
+				rep.Violation("C06|PyLex|"+d+"|"+firstTokDiff(m.Toks, kinds)+"|mutated text: "+m.Op, map[string]interface{}{"case": c.ID, "mode": c.Mode, "source": show(text),
+					"operation": m.Op, "spec_tokens": m.Toks, "lexer_tokens": kinds})
+			}
+		}
 		if !strings.HasPrefix(m.Verdict, "reject") {
 			st.mu.Lock()
 			st.noClaim++
@@ -383,17 +442,14 @@ func checkGrammarCase(c *gcase) {
 		}
 		st.mu.Unlock()
 		if !synFamily[p.errCls] {
-			obs := "accepted"
+			key := "C06|InGrammar|" + m.Verdict + "|" + what + "|observed=accepted"
 			if p.panic != "" {
-				obs = "panic"
+				key = "C06|InGrammar|observed=panic|" + msgClass(p.panic)
 			} else if p.errCls != "" {
-				obs = "error:" + p.errCls + "|" + msgClass(p.errMsg)
+				// rejected, but not with a SyntaxError: the class of the mutation does not matter
+				key = "C06|InGrammar|observed=error:" + p.errCls + "|" + msgClass(p.errMsg)
 			}
-			what := m.Op
-			if m.Tok != "" {
-				what += " " + tokClass(m.Tok)
-			}
-			rep.Violation("C06|InGrammar|"+m.Verdict+"|"+what+"|observed="+obs,
+			rep.Violation(key,
 				map[string]interface{}{"case": c.ID, "mode": c.Mode, "source": show(text), "operation": m.Op, "token": m.Tok, "spec_verdict": m.Verdict, "observed_dump": p.dump})
 		}
 	}
@@ -471,12 +527,17 @@ func firstTokDiff(want, got []string) string {
 }
 
 var (
-	reQuoted = regexp.MustCompile(`'[^']*'|"[^"]*"`)
-	reDigits = regexp.MustCompile(`\d+`)
+	reAstType = regexp.MustCompile(`\*ast\.\w+`)
+	reQuoted  = regexp.MustCompile(`'[^']*'|"[^"]*"`)
+	reDigits  = regexp.MustCompile(`\d+`)
 )
 
 func msgClass(s string) string {
 	s = strings.SplitN(s, "\n", 2)[0]
+	s = reAstType.ReplaceAllString(s, "*ast.T")
+	if i := strings.Index(s, ": missing method"); i > 0 {
+		s = s[:i]
+	}
 	s = reQuoted.ReplaceAllString(s, "Q")
 	s = reDigits.ReplaceAllString(s, "N")
 	return common.TrimKey(s, 60)
@@ -741,10 +802,10 @@ func main() {
 		return common.TLCRun{Dir: "C06", Module: "PyGrammarGen", Config: name + ".cfg", Extra: map[string]string{name + ".cfg": cfg}, Timeout: 14 * time.Minute}
 	}
 	jobs := []job{
-		{"random", mk("random", genCfg(seed, "random", env.Pick(700, 9000), 3, env.Pick(2, 3), env.Pick(1, 2), env.Pick(3, 4))), handleG},
-		{"pairs", mk("pairs", genCfg(seed, "pairs", 0, env.Pick(2, 3), 0, 0, env.Pick(0, 2))), handleG},
 		{"numbers", common.TLCRun{Dir: "C06", Module: "PyLiteralGen", Config: "lit_num.cfg", Timeout: 10 * time.Minute}, handleL},
 		{"strings", common.TLCRun{Dir: "C06", Module: "PyLiteralGen", Config: map[bool]string{false: "lit_str_quick.cfg", true: "lit_str_thorough.cfg"}[env.Thorough()], Timeout: 14 * time.Minute}, handleL},
+		{"pairs", mk("pairs", genCfg(seed, "pairs", 0, env.Pick(2, 3), 0, 0, env.Pick(0, 2))), handleG},
+		{"random", mk("random", genCfg(seed, "random", env.Pick(700, 3000), 3, env.Pick(2, 3), env.Pick(1, 2), 4)), handleG},
 	}
 	if env.Thorough() {
 		jobs = append(jobs, job{"triples", mk("triples", genCfg(seed, "triples", 0, 2, 0, 0, 0)), handleG})
@@ -756,29 +817,15 @@ func main() {
 	}
 	phase := map[string]float64{}
 	var pm sync.Mutex
-	var wg sync.WaitGroup
-	// the generating runs are independent: side by side, sharing the machine
-	per := env.Workers / 2
-	if per < 1 {
-		per = 1
-	}
+	// the generating runs are independent; they run one after the other, each with all workers
+	// (the machine-wide TLC slot limit of harness/common makes side-by-side runs wait anyway)
 	for _, j := range jobs {
-		j := j
-		wg.Add(1)
-		go func() {
-			defer wg.Done()
-			t0 := time.Now()
-			j.run.Workers = per
-			if j.name == "random" || j.name == "triples" {
-				j.run.Workers = env.Workers
-			}
-			runTLC(env, j.run, j.h)
-			pm.Lock()
-			phase[j.name] = time.Since(t0).Seconds()
-			pm.Unlock()
-		}()
+		t0 := time.Now()
+		runTLC(env, j.run, j.h)
+		pm.Lock()
+		phase[j.name] = time.Since(t0).Seconds()
+		pm.Unlock()
 	}
-	wg.Wait()
 	if len(st.selfFail) > 0 {
 		common.Inconclusive("property=C06 the specification fails its own consistency check: %v", st.selfFail[:1])
 	}
